@@ -4,6 +4,7 @@ for every parsed query and every shipped transformer (default copy, auto_head_ta
 targets, OpenRangeTransformer x merge, resolve-then-open_range)."""
 import itertools
 import random
+import time
 from decimal import Decimal
 
 import lib
@@ -139,6 +140,161 @@ def same_meaning(T, a, b, bool_as_unknown=False):
             if sem(T, d, v, a, (), bool_as_unknown) != sem(T, d, v, b, (), bool_as_unknown):
                 return False, len(keys), exhaustive, {"default_and": d, "true_atoms": [repr(k) for k in keys if v[k]]}
     return True, len(keys), exhaustive, None
+
+
+# ------------------------------------------------------------------ end to end w.r.t. the INPUT (props/C11m.v)
+# The theorems C11_resolve_end_to_end / C11_resolve_default_end_to_end / C11_openrange_end_to_end /
+# C11_transformers_end_to_end relate the RE-PARSED tree t2 to the INPUT tree: t2 means what the input means with
+# (resolver) each implicit operation read as the operation found at its place in the resolver's output, (open ranges)
+# each comparison read as the one-sided range it abbreviates, and for merging only over the RANGE-RESPECTING valuations
+# (a range atom = condition on its lower bound and condition on its upper bound, `*` no condition).  Mirrors
+# coq/proofs/MeaningLinkProofs.v: read_as (chosen t'), canon, range_respecting.
+
+def is_star(T, b):
+    return type(b) is T.Word and b.value == "*"
+
+
+def rebuilt(n, kids):
+    new = n.clone_item()
+    new.children = kids
+    return new
+
+
+def relabel(T, n, r):
+    """the input n in which each UnknownOperation is the operation found at the same place in the resolver's output r"""
+    if len(n.children) != len(r.children):
+        raise ValueError("the resolver's output has another shape than its input")
+    kids = [relabel(T, c, rc) for c, rc in zip(n.children, r.children)]
+    if isinstance(n, T.UnknownOperation):
+        if type(r) not in (T.AndOperation, T.OrOperation, T.BoolOperation):
+            raise ValueError("an implicit operation was not resolved to AND / OR / Bool")
+        return type(r)(*kids)
+    return rebuilt(n, kids)
+
+
+def canon_tree(T, n):
+    """the input with every comparison replaced by the one-sided range it abbreviates"""
+    kids = [canon_tree(T, c) for c in n.children]
+    if isinstance(n, T.From):
+        return T.Range(kids[0], T.Word("*"), include_low=bool(n.include), include_high=True)
+    if isinstance(n, T.To):
+        return T.Range(T.Word("*"), kids[0], include_low=True, include_high=bool(n.include))
+    return rebuilt(n, kids)
+
+
+def rr_keys(T, n, ctx, out):
+    """atoms, where a range contributes its two half conditions (none for `*`)"""
+    if isinstance(n, T.SearchField):
+        rr_keys(T, n.expr, ctx + (("field", n.name),), out)
+    elif isinstance(n, T.Boost):
+        rr_keys(T, n.expr, ctx + (("boost", _num(n.force)),), out)
+    elif isinstance(n, (T.BaseGroup, T.Plus, T.Not, T.Prohibit)):
+        rr_keys(T, n.children[0], ctx, out)
+    elif isinstance(n, T.BaseOperation):
+        for c in n.children:
+            rr_keys(T, c, ctx, out)
+    elif type(n) is T.Range:
+        if not is_star(T, n.low):
+            out.setdefault(("L", ctx, bool(n.include_low), fp(T, n.low)), len(out))
+        if not is_star(T, n.high):
+            out.setdefault(("H", ctx, bool(n.include_high), fp(T, n.high)), len(out))
+    else:
+        out.setdefault((ctx, fp(T, n)), len(out))
+
+
+def sem_rr(T, d, w, n, ctx=()):
+    """`sem` under the range-respecting valuation given by w on half conditions and on the other atoms"""
+    rec = lambda c, cx=ctx: sem_rr(T, d, w, c, cx)  # noqa: E731
+    if isinstance(n, T.SearchField):
+        return rec(n.expr, ctx + (("field", n.name),))
+    if isinstance(n, T.Boost):
+        return rec(n.expr, ctx + (("boost", _num(n.force)),))
+    if isinstance(n, (T.BaseGroup, T.Plus)):
+        return rec(n.children[0])
+    if isinstance(n, (T.Not, T.Prohibit)):
+        return not rec(n.a)
+    if isinstance(n, T.AndOperation):
+        return all(rec(c) for c in n.children)
+    if isinstance(n, T.OrOperation):
+        return any(rec(c) for c in n.children)
+    if isinstance(n, T.UnknownOperation):
+        return all(rec(c) for c in n.children) if d else any(rec(c) for c in n.children)
+    if isinstance(n, T.BoolOperation):
+        plus = [c for c in n.children if isinstance(c, T.Plus)]
+        signed = [c for c in n.children if isinstance(c, (T.Plus, T.Prohibit))]
+        plain = [c for c in n.children if not isinstance(c, (T.Plus, T.Prohibit))]
+        if not all(rec(c) for c in signed):
+            return False
+        if plain and not plus:
+            return any(rec(c) for c in plain)
+        return True
+    if type(n) is T.Range:
+        ok = True
+        if not is_star(T, n.low):
+            ok = ok and w[("L", ctx, bool(n.include_low), fp(T, n.low))]
+        if not is_star(T, n.high):
+            ok = ok and w[("H", ctx, bool(n.include_high), fp(T, n.high))]
+        return ok
+    return w[(ctx, fp(T, n))]
+
+
+def linked_meaning(T, t2, exp, rr, same_default, exp_default=None):
+    """t2 (re-parsed) against the expected reading exp of the input, for every valuation (rr: every range-respecting
+    one) and both default operators; same_default: exp is read with the default operator t2 is read with (copy,
+    auto_head_tail, open ranges); otherwise exp holds no implicit operation (or is read with exp_default) and
+    every default on t2 must give that one meaning"""
+    keys = {}
+    if rr:
+        rr_keys(T, t2, (), keys)
+        rr_keys(T, exp, (), keys)
+        ev = lambda d, v, n: sem_rr(T, d, v, n)  # noqa: E731
+    else:
+        atoms(T, t2, (), keys)
+        atoms(T, exp, (), keys)
+        ev = lambda d, v, n: sem(T, d, v, n)  # noqa: E731
+    ks = list(keys)
+    if len(ks) <= 10:
+        rows = itertools.product([False, True], repeat=len(ks))
+    else:
+        rr_ = random.Random(len(ks) + 7)
+        rows = [[rr_.random() < 0.5 for _ in ks] for _ in range(512)]
+    for row in rows:
+        v = dict(zip(ks, row))
+        for d in (True, False):
+            a = ev(d, v, t2)
+            if same_default:
+                bs = [ev(d, v, exp)]
+            elif exp_default is not None:
+                bs = [ev(exp_default, v, exp)]
+            else:
+                bs = [ev(True, v, exp), ev(False, v, exp)]
+            if any(a != b for b in bs):
+                return False, {"default_and": d, "true_atoms": [repr(k) for k in ks if v[k]]}
+    return True, None
+
+
+def end_to_end(T, name, opts, tree, t2):
+    """(holds?, why / witness) of the end-to-end link of props/C11m.v on the implementation"""
+    from luqum.utils import UnknownOperationResolver as R
+    tgs = {"none": None, "and": T.AndOperation, "or": T.OrOperation, "bool": T.BoolOperation}
+    exp, resolves = tree, name in ("resolve", "resolve_then_open_range")
+    if resolves:
+        r1 = R(tgs[opts["resolve_to"]], add_head=opts["add_head"])(tree)
+        exp = relabel(T, tree, r1)
+        want = tgs[opts["resolve_to"]]
+        for (_, a), (_, b) in zip(gentree.all_nodes(tree), gentree.all_nodes(r1)):
+            if isinstance(a, T.UnknownOperation) and not (type(b) is want if want is not None else
+                                                          type(b) in (T.AndOperation, T.OrOperation)):
+                return False, "an implicit operation was resolved to %s" % type(b).__name__
+        if name == "resolve" and opts["resolve_to"] in ("and", "or"):
+            # C11_resolve_default_end_to_end: Meaning.v's own reading of the input under the default AND / OR
+            ok, wit = linked_meaning(T, t2, tree, False, False, exp_default=opts["resolve_to"] == "and")
+            if not ok:
+                return False, dict(wit, against="the input read with the target as default operator")
+    if name in ("open_range", "resolve_then_open_range"):
+        exp = canon_tree(T, exp)
+    ok, wit = linked_meaning(T, t2, exp, bool(opts.get("merge_ranges")), not resolves)
+    return ok, (None if ok else dict(wit, expected=repr(exp)[:400]))
 
 
 # ------------------------------------------------------------------ transformers
@@ -423,6 +579,7 @@ def correspond(model_ok, res):
     extra = [x for x in TR if not x[4]]
     cases, payloads = [], []
     guard_cases, guard_payloads, guard_same, guard_trees = [], [], [], []   # (implementation's T(t), oracle verdict)
+    guard_e2e = []                                                          # ... and the end-to-end link of C11m.v
     parsed_strings, parsed_results = [], []
     seen = set()
     dist = {"rejected_inputs": 0, "oracle_evaluations": 0, "transformer": {}, "verdict": {}, "atoms": {}, "non_exhaustive_tables": 0,
@@ -498,6 +655,16 @@ def correspond(model_ok, res):
                     guard_same.append(verdict == "VSame")
                     guard_payloads.append(dict(payload, transformer_key=key, verdict=verdict))
                     guard_trees.append(t1)
+                    e2e = None     # C11m.v: the re-parsed tree against the INPUT tree
+                    if t2 is not None:
+                        t0 = time.time()
+                        try:
+                            e2e = end_to_end(T, name, opts, tree, t2)
+                        except Exception as e:
+                            e2e = (False, "the end-to-end oracle raised %r" % (e,))
+                        dist["end_to_end_oracle_seconds"] = round(dist.get("end_to_end_oracle_seconds", 0.0) +
+                                                                  time.time() - t0, 3)
+                    guard_e2e.append(e2e)
                 except lib.Unmodelled:
                     pass
             dist["oracle_evaluations"] += 1
@@ -566,7 +733,7 @@ def correspond(model_ok, res):
     except Exception as e:
         res.model_error = "%s: %s" % (type(e).__name__, e)
         return res
-    guard_check(T, res, dist, guard_cases, guard_same, guard_payloads, guard_trees)
+    guard_check(T, res, dist, guard_cases, guard_same, guard_payloads, guard_trees, guard_e2e, parser.parse)
     return res
 
 
@@ -606,7 +773,7 @@ def explained_outside(T, t1):
     return out
 
 
-def guard_check(T, res, dist, guard_cases, guard_same, guard_payloads, guard_trees):
+def guard_check(T, res, dist, guard_cases, guard_same, guard_payloads, guard_trees, guard_e2e, parse):
     """The proved theorems C11_regen / C11_resolve_partial / C11_openrange_partial (props/C11r.v): the executable guard
     `Regen.regen_ok` is evaluated (vm_compute) on the tree the IMPLEMENTATION's transformer returned; inside the guard
     the implementation's print -> re-parse -> truth table must say 'same meaning'.  Also measured: how many cases are
@@ -639,6 +806,21 @@ def guard_check(T, res, dist, guard_cases, guard_same, guard_payloads, guard_tre
          "outside_why": {"levels_or_bool_or_F4_shape": 0, "other_shape": 0, "lexeme_fuses_only": 0},
          "outside_explained_by_known_predicate": {}, "outside_unexplained": 0,
          "outside_unexplained_with_the_default_add_head": 0}
+    ge = {"inside_checked": 0, "inside_holding": 0, "inside_holding_by_transformer": {}, "outside_checked": 0,
+          "outside_holding (validated only)": 0}
+    g["end_to_end_wrt_input (C11m.v)"] = ge
+    # canaries of the end-to-end oracle: F10's witness must fail, a plain resolution / a merge must hold
+    try:
+        c_in = parse("x OR y z")
+        c1 = end_to_end(T, "resolve", {"resolve_to": "and", "add_head": " "}, c_in, parse("x OR y AND z"))
+        c2 = end_to_end(T, "resolve", {"resolve_to": "and", "add_head": " "}, c_in, parse("(x OR y) AND z"))
+        c3 = end_to_end(T, "open_range", {"merge_ranges": True, "add_head": " "}, parse(">=1 AND <5"), parse("[1 TO 5}"))
+        c4 = end_to_end(T, "open_range", {"merge_ranges": True, "add_head": " "}, parse(">=1 AND <5"), parse("[1 TO 5]"))
+        c5 = end_to_end(T, "open_range", {"merge_ranges": False, "add_head": " "}, parse(">=1 AND <5"), parse("[1 TO 5}"))
+        assert not c1[0] and c2[0] and c3[0] and not c4[0] and not c5[0], (c1, c2, c3, c4, c5)
+    except Exception as e:
+        res.model_error = "canary of the end-to-end oracle: %s: %s" % (type(e).__name__, e)
+        return
     for i in range(n):
         k = guard_payloads[i]["transformer_key"]
         g["cases_by_transformer"][k] = g["cases_by_transformer"].get(k, 0) + 1
@@ -648,7 +830,20 @@ def guard_check(T, res, dist, guard_cases, guard_same, guard_payloads, guard_tre
                 res.failures.append((dict(guard_payloads[i], why="inside the proved guard regen_ok (C11_regen, "
                                           "C11_resolve_partial, C11_openrange_partial) but the implementation's output "
                                           "does not re-parse to a tree with the same meaning"), None))
+            e2 = guard_e2e[i]      # C11m.v: inside the guard the re-parsed tree means what the INPUT is expected to mean
+            ge["inside_checked"] += e2 is not None
+            if e2 is not None and not e2[0]:
+                res.failures.append((dict(guard_payloads[i], link=e2[1], why="inside the proved guard regen_ok but the "
+                                          "re-parsed tree does not mean what the INPUT tree means under the transformer's "
+                                          "reading (C11_resolve_end_to_end / C11_openrange_end_to_end / "
+                                          "C11_transformers_end_to_end)"), None))
+            elif e2 is not None:
+                ge["inside_holding"] += 1
+                ge["inside_holding_by_transformer"][k] = ge["inside_holding_by_transformer"].get(k, 0) + 1
         else:
+            if guard_e2e[i] is not None:
+                ge["outside_checked"] += 1
+                ge["outside_holding (validated only)"] += bool(guard_e2e[i][0])
             if guard_same[i]:
                 g["outside_and_same_meaning (guard conservative, validated only)"] += 1
             else:
@@ -719,7 +914,13 @@ SPEC = {
              # under the executable guard Regen.regen_ok on the transformer's output (proofs/ResolverRoundTripProofs.v)
              {"module": "C11r", "target": "props/C11r.vo",
               "theorems": ["C11_regen", "C11_regen_tokens", "C11_resolve_partial", "C11_openrange_partial",
-                           "C11_resolve_open_partial", "C11_shipped_partial", "C11_regen_unguarded_refuted"]}],
+                           "C11_resolve_open_partial", "C11_shipped_partial", "C11_regen_unguarded_refuted"]},
+             # END TO END w.r.t. the INPUT, inside the guard: the re-parsed tree against the parsed query
+             # (proofs/MeaningLinkProofs.v composes C10's resolution / C12's Conv with Meaning.v and C11_regen)
+             {"module": "C11m", "target": "props/C11m.vo",
+              "theorems": ["C11_resolve_end_to_end", "C11_resolve_default_end_to_end", "C11_openrange_end_to_end",
+                           "C11_openrange_plain_fingerprint", "C11_transformers_end_to_end", "C11_shipped_end_to_end",
+                           "C11m_range_respecting_needed", "C11m_guard_needed"]}],
     "correspond": correspond,
     "statement": "for every parsed query t and shipped transformer T (copy, auto_head_tail, resolver x 4 targets, open "
                  "ranges x merge, resolve-then-open-range; add_head = one blank), parse(str(T(t))) succeeds and has the "
@@ -733,7 +934,14 @@ SPEC = {
                  "(with / without merge_ranges, ANY add_head), their composition and every shipped transformer, for every "
                  "parsed query whose TRANSFORMED tree is inside the executable guard Regen.regen_ok (= not F10, not F10c, "
                  "not F10b / F1's fused field, not an F4-shaped tree); they are instances of C11_regen: ANY tree inside "
-                 "the guard prints to a query that parses to a tree with the same meaning",
+                 "the guard prints to a query that parses to a tree with the same meaning. END TO END w.r.t. the INPUT, "
+                 "inside the guard (C11m.v): C11_resolve_end_to_end / C11_resolve_default_end_to_end / "
+                 "C11_openrange_end_to_end / C11_transformers_end_to_end / C11_shipped_end_to_end: the re-parsed tree means, "
+                 "for every valuation, what the PARSED QUERY means - read with the resolved operators (target AND / OR: "
+                 "under any default operator, what the query means under the default AND / OR; Lucene mode: the operator "
+                 "found at each implicit operation's path, AND or OR per C10's rule), with every comparison read as the "
+                 "one-sided range it abbreviates, and for merge_ranges over the range-respecting valuations (a range = "
+                 "lower condition and upper condition, * unbounded: the convention of C12's oracle)",
     "level_text": "Coq proof (PARTIAL) + correspondence. Proved: (1) the full statement is refuted by computed witnesses, one "
                   "per defect class, and C11_every_transformer_refuted: NO shipped transformer satisfies it on all parsed "
                   "queries (F1's fused field breaks even the default copy); (2) the boolean meaning `sem` is a function of "
@@ -777,6 +985,33 @@ SPEC = {
                   "predicate of a known class (BoolOperation F10c, lower-under-higher F10 / an F4-shaped parsed tree, "
                   "fused field F1, fusing operator F10b; the documented name_glue corner) and that no node-shape component "
                   "ever fails on a transformer's output. "
+                  "(9) C11m.v, END TO END WITH RESPECT TO THE INPUT, inside the guard (proofs/MeaningLinkProofs.v): the "
+                  "theorems of (8) relate the re-parsed tree t'' to the transformer's OUTPUT t'; these relate t'' to the "
+                  "parsed query t. Resolver (any target, Lucene mode, any add_head), C11_resolve_end_to_end: by induction "
+                  "over C10's `resolution` relation, fingerprint t' = read_as (chosen t') t = the fingerprint of t in which "
+                  "the implicit operation at path p is the operation found at p in t' (the target for an explicit "
+                  "target; AND or OR in the Lucene mode, AND throughout when the query has no explicit AND / OR), no "
+                  "implicit operation is left, so sem d v t'' = fsem d' v (read_as (chosen t') t) for every valuation and "
+                  "whatever the default operators d, d'; C11_resolve_default_end_to_end: for the targets AND / OR, under "
+                  "ANY default operator t'' means what t means under the default operator AND / OR (Meaning.v's own "
+                  "reading of t; uses that the leaves of the meaning hold values only, which follows from the guard: "
+                  "regen_ok_flat, resolution_flat). Open ranges, C11_openrange_end_to_end: by induction over C12's `Conv` "
+                  "relation; atoms are compared by fingerprint in Meaning.v, so >1 and {1 TO *] are different atoms: the "
+                  "statement is against canon (fingerprint t), the query in which every comparison IS the one-sided "
+                  "range atom it abbreviates; without merging for EVERY valuation (fingerprint t' = canon (fingerprint "
+                  "t), C11_openrange_plain_fingerprint, no guard needed); with merging ([1 TO *] AND [* TO 5} becomes the "
+                  "new atom [1 TO 5}) for the RANGE-RESPECTING valuations: v [lo TO hi] = L lo && H hi for arbitrary "
+                  "functions L, H of the field / boost context, the inclusiveness flag and the bound, * being no condition "
+                  "(the convention of harness/c12.py's oracle and of C12's `holds`); C11m_range_respecting_needed: for "
+                  "the other valuations merging does change the truth table. C11_transformers_end_to_end / "
+                  "C11_shipped_end_to_end: every transformer as data (copy and auto_head_tail: same fingerprint as the "
+                  "query; resolver; open ranges; resolve-then-open-ranges: canon of the reading), any add_head / the "
+                  "shipped blank. C11m_guard_needed: without the guard the end-to-end statement is false (F10). No "
+                  "hypothesis beyond C11r's: parsed query, guard on the output. On every run harness/c11.py also "
+                  "evaluates the same link on the IMPLEMENTATION (independent Python oracle: relabelled / canonical "
+                  "expected tree built from the input, truth tables over atoms resp. half-range conditions, five "
+                  "canaries) for every generated (query, transformer) whose re-parse succeeds, and requires it to hold "
+                  "whenever the guard holds. "
                   "NOT proved: the statement OUTSIDE the guard where it nevertheless holds (F4-shaped trees under copy / "
                   "auto_head_tail / open ranges, a few per thousand generated cases): validated on every "
                   "run by the correspondence, which evaluates the executable statement both on the real code "
